@@ -15,11 +15,11 @@ Lemma mapeps_inv : forall T T' st st1 F,
   (forall w ei, In (w, ei) (eps st) -> exists ei', F w ei = Some ei' /\ shape ei ei' /\ live_ok st1 w ei') ->
   closed st1 = closed st ->
   pols st1 = t_pols T' -> profs st1 = t_profs T' -> ipsets st1 = t_ips T' -> sas st1 = t_sas T' -> nss st1 = t_nss T' ->
-  insync st1 = t_insync T' -> njoins st1 = t_njoins T' -> t_eps T' = t_eps T -> t_conn T' = t_conn T ->
+  insync st1 = t_insync T' -> njoins st1 = t_njoins T' -> t_eps T' = t_eps T -> t_conn T' = t_conn T -> t_njoins T' = t_njoins T ->
   fal (sas st1) -> fal (nss st1) -> WFT T' ->
   exists x, map_eps F (eps st) = Some x /\ Inv T' (set_eps st1 x).
 Proof.
-  intros T T' st st1 F I HF HC E1 E2 E3 E4 E5 E6 E7 E8 E9 FA FN W.
+  intros T T' st st1 F I HF HC E1 E2 E3 E4 E5 E6 E7 E8 E9 E10 FA FN W.
   destruct (map_eps_some F (eps st)) as (x & M & X1 & X2).
   { intros w ei H. destruct (HF w ei H) as (ei' & A & _). congruence. }
   exists x. split; [exact M|]. constructor; try assumption.
@@ -30,6 +30,8 @@ Proof.
   - intros w ei' H. cbn [eps set_eps] in H. destruct (X1 _ _ H) as (ei & A & B).
     destruct (HF w ei A) as (ei2 & A2 & _ & L). rewrite B in A2. inversion A2; subst. exact L.
   - intros j w c s H. cbn [closed set_eps] in H. rewrite HC in H. apply (i_closed _ _ I j w c s H).
+  - unfold WFC. rewrite E9, E10. apply (i_wfc _ _ I).
+  - intros j w c s H. cbn [closed set_eps] in H. rewrite HC in H. unfold cfree. rewrite E9, E10. apply (i_cidx _ _ I j w c s H).
 Qed.
 
 (* ---- referencesIPSet ---- *)
